@@ -84,22 +84,47 @@ export function collectRefs(v, out) {
 }
 
 // Run `indices` over `workers` child processes of `script` (argv: "worker", ...args).
-// Each child receives {index} messages and answers {index, result}. Pure function of the index.
-export function pool(script, args, indices, workers, onResult) {
+// Each child receives {index} messages, announces {start, run} before executing and answers
+// {index, result}. Pure function of the index. A child that stays silent for `stallMs` while it
+// works on a run is killed and the run is handed to onStall (and a new child takes over).
+export function pool(script, args, indices, workers, onResult, onStall = null, stallMs = 20000) {
   return new Promise((resolve, reject) => {
     let next = 0;
     let live = 0;
     let failed = null;
+    let stalls = 0;
     const n = Math.max(1, Math.min(workers, indices.length));
-    for (let w = 0; w < n; w++) {
+    const spawn = () => {
       const child = fork(script, ["worker", ...args], { stdio: ["ignore", "ignore", "inherit", "ipc"] });
       live++;
+      let busy = null; // {index, run, since}
+      let done = false;
       const feed = () => {
-        if (next < indices.length) child.send({ index: indices[next++] });
-        else child.send({ done: true });
+        busy = null;
+        if (next < indices.length && stalls < 6) child.send({ index: indices[next++] });
+        else {
+          done = true;
+          child.send({ done: true });
+        }
       };
+      const timer = setInterval(() => {
+        if (busy && Date.now() - busy.since > stallMs) {
+          clearInterval(timer);
+          stalls++;
+          const b = busy;
+          busy = null;
+          done = true;
+          child.kill("SIGKILL");
+          if (onStall) onStall(b.index, b.run);
+          if (next < indices.length && stalls < 6) spawn();
+        }
+      }, 500);
       child.on("message", (m) => {
         if (m.ready) return feed();
+        if (m.start !== undefined) {
+          busy = { index: m.start, run: m.run, since: Date.now() };
+          return;
+        }
         if (m.fatal) {
           failed = m.fatal;
           child.kill();
@@ -109,10 +134,30 @@ export function pool(script, args, indices, workers, onResult) {
         feed();
       });
       child.on("exit", (code) => {
+        clearInterval(timer);
         live--;
-        if (code !== 0 && failed == null && next < indices.length) failed = `worker exited with ${code}`;
-        if (live === 0) failed ? reject(new Error(failed)) : resolve();
+        if (code !== 0 && !done && failed == null && next < indices.length) failed = `worker exited with ${code}`;
+        if (live === 0) failed ? reject(new Error(failed)) : resolve({ stalls, executed: next });
       });
-    }
+    };
+    for (let w = 0; w < n; w++) spawn();
+  });
+}
+
+// Execute one explicit run alone in a fresh child with a time limit.
+export function alone(script, args, run, limitMs) {
+  return new Promise((resolve) => {
+    const child = fork(script, ["worker", ...args], { stdio: ["ignore", "ignore", "inherit", "ipc"] });
+    const t = setTimeout(() => {
+      child.kill("SIGKILL");
+      resolve({ stalled: true });
+    }, limitMs);
+    child.on("message", (m) => {
+      if (m.ready) return child.send({ index: -1, run });
+      if (m.start !== undefined) return;
+      clearTimeout(t);
+      child.send({ done: true });
+      resolve(m.fatal ? { fatal: m.fatal } : { result: m.result });
+    });
   });
 }
